@@ -41,16 +41,13 @@ func escOpts(i int, ai bool) []jsonv2.Options {
 	return o
 }
 
-// single-quoted struct tag name for an arbitrary valid string
+// tagName returns the struct tag spelling of a member name: names are written verbatim in the
+// `json` tag; comma, backslash and the three quote characters are reserved.
 func tagName(name string) (string, bool) {
-	if !utf8.ValidString(name) || name == "" {
+	if !utf8.ValidString(name) || name == "" || name == "-" || strings.ContainsAny(name, ",\\'\"`") {
 		return "", false
 	}
-	q := strconv.Quote(name) // "..." with Go escapes
-	inner := q[1 : len(q)-1]
-	inner = strings.ReplaceAll(inner, `\"`, `"`)
-	inner = strings.ReplaceAll(inner, `'`, `\'`)
-	return "'" + inner + "'", true
+	return name, true
 }
 
 // stringPaths returns, per path name, the literal the library produced for the Go string s
